@@ -5,7 +5,7 @@ CONSTANTS
   Recheck = TRUE
 INIT MInit
 NEXT MNext
-INVARIANTS TypeOK LockOK Injective CountersMatch RepliesAgree Quiescent
+INVARIANTS TypeOK LockOK Injective CountersMatch RepliesAgree NoOrphans
 PROPERTIES Stable
 SYMMETRY Symm
 CHECK_DEADLOCK FALSE
